@@ -305,11 +305,17 @@ def shrink_records(names, seqs, mt):
             yield [names[i]], [seqs[i]]
         if n > 2:
             yield names[:2], seqs[:2]
+    if any(len(s) == 0 for s in seqs):       # is the empty sequence needed for the failure?
+        yield names, [s or seq_for(mt, i, 1) for i, s in enumerate(seqs)]
     plain = [f"n{i}" for i in range(n)]
     yield plain, seqs
     for i in range(n):
         if names[i] != plain[i] and plain[i] not in names:
             yield names[:i] + [plain[i]] + names[i + 1:], seqs
+    for i in range(n):                       # same length but alphanumeric; then shorter
+        for cand in (plain[i] + "x" * (len(names[i]) - len(plain[i])), names[i][:11].rstrip(), names[i][:10].rstrip()):
+            if cand and cand != names[i] and len(cand) <= len(names[i]) and cand not in names:
+                yield names[:i] + [cand] + names[i + 1:], seqs
     for k in (1, 8, 61):
         if any(len(s) > k for s in seqs):
             yield names, [s[:k] if len(s) > k else s for s in seqs]
@@ -352,7 +358,7 @@ def minimise(case, evaluate, candidates, sig):
 
 
 def record_features(names, seqs):
-    feats = sorted({name_class(n) for n in names if not (n[:1] == "n" and n[1:].isdigit())})
+    feats = sorted({name_class(n) for n in names if not (n[:1] == "n" and n[1:].isdigit())} - {"name-alnum"})
     lengths = [len(s) for s in seqs]
     if 0 in lengths:
         feats.append("zero-length")
@@ -763,9 +769,11 @@ def ps_eval(case):
                 try:
                     results[vname] = thunk()
                 except Exception as e:
-                    return ("fail", f"{vname}/raises {type(e).__name__}",
-                            f"{vname} raised {type(e).__name__}: {str(e)[:160]} on text {text[:160]!r}")
+                    results[vname] = e
     for vname, got in results.items():
+        if isinstance(got, Exception):
+            return ("fail", f"{vname}/raises {type(got).__name__}",
+                    f"{vname} raised {type(got).__name__}: {str(got)[:160]} on text {text[:160]!r}")
         if [g[0] for g in got] != names:
             if len(got) != len(names):
                 return ("fail", f"{vname}/record count",
